@@ -50,7 +50,7 @@ func (o c03Op) String() string {
 	if o.Bad != "" {
 		u += ",rejected:" + o.Bad
 	}
-	return fmt.Sprintf("Call(%s,%q%s)", o.Test, o.Val, u)
+	return fmt.Sprintf("Call(%s,%q%s)", o.Test, vfClip(o.Val), u)
 }
 
 // c03Apply replays a whole history on a fresh world, checking every
@@ -329,6 +329,52 @@ func c03Failing(emit func(c03Case)) {
 	}
 }
 
+// c03BigFile: a file well above 128 KiB (several refills of any 64 KiB read buffer), ~90 slots of two tests with distinct lines:
+// recorded, replayed, one early slot grown under update (every later entry shifts), everything replayed again.
+func c03BigFile(emit func(c03Case)) {
+	body := func(t string, k int) string {
+		var b strings.Builder
+		for l := 0; l < 40; l++ {
+			fmt.Fprintf(&b, "%s slot %d line %d ........................\n", t, k, l)
+		}
+		return b.String() + "end"
+	}
+	var rec, rep []c03Op
+	for k := 1; k <= 45; k++ {
+		for _, t := range []string{"TestBig", "TestBigB"} {
+			rec = append(rec, c03Op{Op: "call", Test: t, Val: body(t, k)})
+		}
+	}
+	rep = append(rep, rec...)
+	ends := []c03Op{{Op: "end", Test: "TestBig"}, {Op: "end", Test: "TestBigB"}}
+	var ops []c03Op
+	ops = append(ops, rec...)
+	ops = append(ops, ends...)
+	ops = append(ops, rep...)
+	ops = append(ops, ends...)
+	// grow slot (TestBig, 2) and shrink slot (TestBigB, 3) under update, the other calls unchanged
+	for i, o := range rec {
+		switch i {
+		case 2:
+			o.Val, o.Upd = o.Val+strings.Repeat("\ngrown line", 700), true
+		case 5:
+			o.Val, o.Upd = "shrunk", true
+		}
+		ops = append(ops, o)
+	}
+	ops = append(ops, ends...)
+	for i, o := range rec {
+		switch i {
+		case 2:
+			o.Val = o.Val + strings.Repeat("\ngrown line", 700)
+		case 5:
+			o.Val = "shrunk"
+		}
+		ops = append(ops, o)
+	}
+	emit(c03Case{Ops: ops})
+}
+
 // c03TwoFiles: one test alternating between two snapshot files, executed three times.
 func c03TwoFiles(emit func(c03Case)) {
 	for _, pattern := range [][]string{{"", "g"}, {"g", ""}, {"", "g", "g", ""}, {"", "", "g", "g", "g"}, {"g", "g", ""}} {
@@ -414,7 +460,13 @@ func init() {
 			"every transition executed on the real code and compared with the model (outcome, addressed slot, parse(disk)); plus linear families with 10..12 ordinals; " +
 			"non-trivial = distinct histories with two tests, an End, an update or a special value"
 		c03BFS(c)
-		lin := func(emit func(c03Case)) { c03Linear(c, emit); c03TwoFiles(emit); c03Shadow(emit); c03Failing(emit) }
+		lin := func(emit func(c03Case)) {
+			c03Linear(c, emit)
+			c03TwoFiles(emit)
+			c03Shadow(emit)
+			c03Failing(emit)
+			c03BigFile(emit)
+		}
 		lin(func(cs c03Case) {
 			if !c.mine() {
 				return
